@@ -755,11 +755,13 @@ def stepCfg (cfg : Cfg) (s : St) (line : String) : St × String :=
   | "mgr" :: kind :: rest =>
     let vars := ((kv rest "vars").bind String.toNat?).getD 0
     let cap0 := (kv rest "cap") == some "0"
+    let cap := (kv rest "cap").bind String.toNat?
     match kind with
     | "bdd" => let d : DSt Bdd.BDD := newDSt cfg vars cap0; (.bdd d, "ok" ++ d.tail)
     | "bcdd" => let d : DSt Bcdd.Edge := newDSt cfg vars cap0; (.bcdd d, "ok" ++ d.tail)
     | "zbdd" =>
-      if cap0 && vars > 0 then (.dead, "CRASH") else
+      -- known finding KF-zbdd-addvars-oom: no room for one tautology node per variable
+      if (match cap with | some c => decide (c < vars) | none => false) then (.dead, "CRASH") else
       let d : DSt Zbdd.ZDD := newDSt cfg vars cap0; (.zbdd d, "ok" ++ d.tail)
     | _ => (s, "bad-op")
   | _ =>
@@ -771,9 +773,13 @@ def stepCfg (cfg : Cfg) (s : St) (line : String) : St × String :=
     | .zbdd d => let (d', o) := stepK KZbdd.kind cfg d line; (.zbdd d', o)
 
 /-- the code as it is in /repo -/
-def proto : Proto := { σ := St, init := .none, step := stepCfg Cfg.beforeFix }
+def proto : Proto := { σ := St, init := .none, step := stepCfg Cfg.current }
 
-/-- with `oxidd_zbdd_make_node` repaired (proposed fix Ffi-1) -/
-def protoFixed : Proto := { σ := St, init := .none, step := stepCfg Cfg.current }
+/-- the wrapper before `oxidd_zbdd_make_node` was repaired (leaks `hi`/`lo` when `var` or `hi` is
+invalid); reproduces the stream of the unfixed library -/
+def protoBeforeFix : Proto := { σ := St, init := .none, step := stepCfg Cfg.beforeFix }
+
+/-- registered as `capi-fixed` in `Main.lean` while the fix was pending; now the same as `proto` -/
+def protoFixed : Proto := proto
 
 end OxiddModel.Ffi
